@@ -630,3 +630,75 @@ Qed.
 Lemma lite_roll_eq_core_proof cfg c buf : c_before cfg = 0 -> c_after cfg = 0 ->
   fst (roll cfg c buf) = fst (lite_roll tt buf).
 Proof. intros Hb Ha. unfold roll, lite_roll, max_context. rewrite Hb, Ha. reflexivity. Qed.
+
+(* ---------------- consequences inside the Core model: Convert, and the standard printer ---------------- *)
+From RG Require Spec.BinarySpec Proofs.PrinterBinProofs.
+
+(* the events of a Core run, as events of the C14 model; the trace starts with the one begin *)
+Lemma core_trace cfg M r s :
+  (forall i, r i <> Fail) ->
+  c_before cfg = 0 -> c_after cfg = 0 -> c_stop_on_nonmatch cfg = false -> find_spec cfg M s ->
+  exists evs plan, slice_by_line_run cfg M r s = RunOk evs /\
+    map ev14 evs = rev (snd (slice_run (sink_of r) (mode14 (c_binary cfg)) default_buffer_capacity s plan (length s) (0, []))).
+Proof.
+  intros Hr Hb Ha Hs Hfs. pose proof (slice_sim_proof cfg M r Hr Hb Ha Hs s Hfs) as H.
+  destruct (slice_by_line_run cfg M r s) as [evs| |]; cbn [result14] in H; try discriminate H.
+  injection H as H. exists evs, (core_plan_on (fastb cfg M) cfg (m_is_match M) s). split; [reflexivity|exact H].
+Qed.
+
+Theorem core_convert_guarded_proof :
+  forall (cfg : config) (M : matcher) (r : nat -> reply) (b : byte),
+    (forall i, r i <> Fail) ->
+    c_before cfg = 0 -> c_after cfg = 0 -> c_stop_on_nonmatch cfg = false ->
+    c_binary cfg = SearcherCore.BConvert b ->
+    forall s : bytes, find_spec cfg M s ->
+    exists evs, slice_by_line_run cfg M r s = RunOk evs /\ BinaryDetectProofs.guarded b (map ev14 evs).
+Proof.
+  intros cfg M r b Hr Hb Ha Hs Hc s Hfs.
+  destruct (core_trace cfg M r s Hr Hb Ha Hs Hfs) as (evs & plan & E & H).
+  exists evs. split; [exact E|]. rewrite H, Hc. cbn [mode14].
+  apply BinaryDetectProofs.slice_convert_guarded_proof. reflexivity.
+Qed.
+
+(* whatever the sink replies: feeding the delivered events to the standard printer writes no b *)
+Theorem core_standard_output_free_proof :
+  forall (cfg : config) (M : matcher) (r : nat -> reply) (b : byte)
+         (pcfg : std_cfg) (render : BinaryDetect.event -> bytes),
+    (forall i, r i <> Fail) ->
+    c_before cfg = 0 -> c_after cfg = 0 -> c_stop_on_nonmatch cfg = false ->
+    c_binary cfg = SearcherCore.BQuit b \/ c_binary cfg = SearcherCore.BConvert b ->
+    sc_mode pcfg = mode14 (c_binary cfg) ->
+    PrinterBinProofs.render_ok render b -> PrinterBinProofs.texts_free pcfg b ->
+    forall s : bytes, find_spec cfg M s ->
+    exists evs, slice_by_line_run cfg M r s = RunOk evs /\
+      ~ In b (ss_out (PrinterBinProofs.std_run pcfg render (map ev14 evs) PrinterBinProofs.st0)).
+Proof.
+  intros cfg M r b pcfg render Hr Hb Ha Hs Hqc Hm Hren Htx s Hfs.
+  destruct (core_trace cfg M r s Hr Hb Ha Hs Hfs) as (evs & plan & E & H).
+  exists evs. split; [exact E|]. rewrite H.
+  set (w := slice_run (sink_of r) (mode14 (c_binary cfg)) default_buffer_capacity s plan (length s) (0, [])).
+  assert (Hshape : exists t, rev (snd w) = BinaryDetect.EBegin :: t /\ BinarySpec.no_begin t).
+  { apply (BinaryDetectProofs.slice_run_emit_pres (sink_of r) (mode14 (c_binary cfg)) b
+             (fun w => exists t, rev (snd w) = BinaryDetect.EBegin :: t /\ BinarySpec.no_begin t)).
+    - intros w0 ev Hne (t & Ht & Hnb). exists (t ++ [ev]). unfold BinaryDetect.emit.
+      destruct (sink_of r (fst w0) ev) as [s' g]. cbn [fst snd rev]. rewrite Ht. split; [reflexivity|].
+      apply Forall_app. split; [exact Hnb|]. constructor; [exact Hne|constructor].
+    - exists []. split; [reflexivity|constructor]. }
+  destruct Hshape as (t & Ht & Hnb). rewrite Ht.
+  rewrite PrinterBinProofs.std_run_eq_spec_proof.
+  change (ss_out PrinterBinProofs.st0 ++
+          BinarySpec.std_spec pcfg render (BinaryDetect.EBegin :: t) (ss_match_count PrinterBinProofs.st0)
+            (ss_bin PrinterBinProofs.st0))
+    with (BinarySpec.std_spec pcfg render t 0 None).
+  destruct Hqc as [Hq|Hc].
+  - pose proof (BinaryDetectProofs.slice_quit_events_free_proof (sink_of r) (mode14 (c_binary cfg)) b
+                  default_buffer_capacity s plan (length s) 0) as Hf.
+    rewrite Hq in Hf. specialize (Hf eq_refl). rewrite <- Hq in Hf. fold w in Hf.
+    apply BinaryDetectProofs.Forall_rev' in Hf. rewrite Ht in Hf. inversion Hf; subst.
+    apply PrinterBinProofs.spec_free_all with (b := b); assumption.
+  - pose proof (BinaryDetectProofs.slice_convert_guarded_proof (sink_of r) (mode14 (c_binary cfg)) b
+                  default_buffer_capacity s plan (length s) 0) as Hg.
+    rewrite Hc in Hg. specialize (Hg eq_refl). rewrite <- Hc in Hg. fold w in Hg.
+    rewrite Ht in Hg. cbn [BinaryDetectProofs.guarded] in Hg. destruct Hg as [_ Hg].
+    apply PrinterBinProofs.spec_free_guarded with (b := b); try assumption. rewrite Hm, Hc. reflexivity.
+Qed.
